@@ -50,6 +50,9 @@ pub enum Req {
     SignHolder(usize),
     /// with_channel: sign the next counterparty commitment (read-modify-write of the counterparty side)
     SignCp(usize),
+    /// with_channel: sign the next counterparty commitment with one outgoing HTLC of PAY_SAT for the
+    /// payment hash approved during setup (read-modify-write of the node ledger: validate..apply)
+    PayCp(usize),
     /// with_channel_base: read a per-commitment point
     Point(usize),
     Forget(usize),
@@ -60,16 +63,26 @@ pub enum Req {
     Invoice(u8),
     Allow(u8),
     NewChan(u64),
+    /// forget the channel that new_channel(dbid) creates
+    ForgetDb(u64),
     Onchain,
+    /// setup_channel on the stub (makes it a ready channel with its own monitor)
+    SetupChan,
+    /// unchecked_sign_onchain_tx of the wallet transaction
+    SignOnchain,
+    /// tracker.add_block with a block that contains a spend of channel c's funding outpoint
+    AddBlock(usize),
+    /// tracker.remove_block of the last block added by an AddBlock request
+    RmBlock,
 }
 
 impl Req {
     /// request kind in the generated lock table
     pub fn kind(&self) -> &'static str {
         match self {
-            Req::Validate(_) | Req::SignHolder(_) | Req::SignCp(_) => "channel_request",
+            Req::Validate(_) | Req::SignHolder(_) | Req::SignCp(_) | Req::PayCp(_) => "channel_request",
             Req::Point(_) => "channel_base_request",
-            Req::Forget(_) => "forget_channel",
+            Req::Forget(_) | Req::ForgetDb(_) => "forget_channel",
             Req::Balance => "channel_balance",
             Req::Chaninfo => "chaninfo",
             Req::Heartbeat => "get_heartbeat",
@@ -78,6 +91,10 @@ impl Req {
             Req::Allow(_) => "add_allowlist",
             Req::NewChan(_) => "new_channel",
             Req::Onchain => "check_onchain_tx",
+            Req::SetupChan => "setup_channel",
+            Req::SignOnchain => "unchecked_sign_onchain_tx",
+            Req::AddBlock(_) => "add_block",
+            Req::RmBlock => "remove_block",
         }
     }
     pub fn line(&self, tid: usize) -> String {
@@ -85,6 +102,7 @@ impl Req {
             Req::Validate(c) => format!("req {} validate {}", tid, c),
             Req::SignHolder(c) => format!("req {} signholder {}", tid, c),
             Req::SignCp(c) => format!("req {} signcp {}", tid, c),
+            Req::PayCp(c) => format!("req {} paycp {}", tid, c),
             Req::Point(c) => format!("req {} point {}", tid, c),
             Req::Forget(c) => format!("req {} forget {}", tid, c),
             Req::Balance => format!("req {} balance", tid),
@@ -94,7 +112,12 @@ impl Req {
             Req::Invoice(x) => format!("req {} invoice {}", tid, x),
             Req::Allow(x) => format!("req {} allow {}", tid, x),
             Req::NewChan(d) => format!("req {} newchan {}", tid, d),
+            Req::ForgetDb(d) => format!("req {} forgetdb {}", tid, d),
             Req::Onchain => format!("req {} onchain", tid),
+            Req::SetupChan => format!("req {} setupchan", tid),
+            Req::SignOnchain => format!("req {} signonchain", tid),
+            Req::AddBlock(c) => format!("req {} addblock {}", tid, c),
+            Req::RmBlock => format!("req {} rmblock", tid),
         }
     }
     pub fn parse(toks: &[&str]) -> Option<(usize, Req)> {
@@ -104,6 +127,7 @@ impl Req {
             "validate" => Req::Validate(arg()? as usize),
             "signholder" => Req::SignHolder(arg()? as usize),
             "signcp" => Req::SignCp(arg()? as usize),
+            "paycp" => Req::PayCp(arg()? as usize),
             "point" => Req::Point(arg()? as usize),
             "forget" => Req::Forget(arg()? as usize),
             "balance" => Req::Balance,
@@ -113,7 +137,12 @@ impl Req {
             "invoice" => Req::Invoice(arg()? as u8),
             "allow" => Req::Allow(arg()? as u8),
             "newchan" => Req::NewChan(arg()?),
+            "forgetdb" => Req::ForgetDb(arg()?),
             "onchain" => Req::Onchain,
+            "setupchan" => Req::SetupChan,
+            "signonchain" => Req::SignOnchain,
+            "addblock" => Req::AddBlock(arg()? as usize),
+            "rmblock" => Req::RmBlock,
             _ => return None,
         };
         Some((tid, r))
@@ -171,9 +200,61 @@ struct World {
     /// prepared commitment 1 with counterparty signatures, per channel
     commits: Vec<(TestCommitmentTxContext, Signature, Vec<Signature>)>,
     onchain: (bitcoin::Transaction, TestFundingTxContext),
+    /// the stub's context (for setup_channel)
+    stub: Option<TestChannelContext>,
+    /// blocks added by AddBlock requests (std mutex: harness bookkeeping, not a lock of the signer)
+    blocks: std::sync::Mutex<Vec<bitcoin::Block>>,
+    coinbase_ctr: std::sync::atomic::AtomicU32,
+}
+
+fn mk_tx(inputs: Vec<bitcoin::OutPoint>, tag: u32) -> bitcoin::Transaction {
+    use bitcoin::absolute::LockTime;
+    use bitcoin::transaction::Version;
+    bitcoin::Transaction {
+        version: Version::non_standard(0),
+        lock_time: LockTime::from_consensus(tag),
+        input: inputs
+            .into_iter()
+            .map(|previous_output| bitcoin::TxIn {
+                previous_output,
+                script_sig: Default::default(),
+                sequence: bitcoin::Sequence::ZERO,
+                witness: bitcoin::Witness::default(),
+            })
+            .collect(),
+        output: vec![bitcoin::TxOut { value: bitcoin::Amount::from_sat(tag as u64), script_pubkey: bitcoin::ScriptBuf::new() }],
+    }
+}
+
+fn coinbase(n: u32) -> bitcoin::Transaction {
+    let mut t = mk_tx(vec![], 400_000 + n);
+    t.output[0].value = Default::default();
+    t
+}
+
+fn funding_tx(nn: usize) -> bitcoin::Transaction {
+    mk_tx(vec![bitcoin::OutPoint { txid: Txid::from_slice(&[0xA0u8.wrapping_add(nn as u8); 32]).unwrap(), vout: 0 }], 1000 + nn as u32)
+}
+
+/// add a block with the given transactions to the node's tracker (caller = the block source)
+fn add_block_with(w_node: &Arc<Node>, ctr: &std::sync::atomic::AtomicU32, txs: Vec<bitcoin::Transaction>) -> (bitcoin::Block, String) {
+    use lightning_signer::txoo::proof::TxoProof;
+    let n = ctr.fetch_add(1, std::sync::atomic::Ordering::SeqCst);
+    let mut tracker = w_node.get_tracker();
+    let mut all = vec![coinbase(n)];
+    all.extend(txs);
+    let block = make_block(tracker.tip().0, all);
+    let tip = tracker.tip().clone();
+    let h = tracker.height();
+    let proof = TxoProof::prove_unchecked(&block, &tip.1, h + 1);
+    let r = tracker.add_block(block.header, proof);
+    (block, match r { Ok(()) => "ok".into(), Err(e) => format!("err:{:?}", e) })
 }
 
 const CHANNEL_VALUE: u64 = 3_000_000;
+/// value of the outgoing HTLC of a `paycp` request; the keysend approved during setup covers ONE of them
+const PAY_SAT: u64 = 50_000;
+const PAY_HASH: [u8; 32] = [0x77; 32];
 
 fn build_world(sc: &Scenario) -> World {
     let node_ctx = test_node_ctx(1);
@@ -182,13 +263,19 @@ fn build_world(sc: &Scenario) -> World {
     for i in 0..sc.nchan {
         let nn = i + 1;
         let mut cc = test_chan_ctx(&node_ctx, nn, CHANNEL_VALUE);
-        let outpoint =
-            bitcoin::OutPoint { txid: Txid::from_slice(&[nn as u8; 32]).unwrap(), vout: 0 };
+        let outpoint = bitcoin::OutPoint { txid: funding_tx(nn).compute_txid(), vout: 0 };
         synthesize_setup_channel(&node_ctx, &mut cc, outpoint, 0);
         // commitment 0 (initial), validated sequentially during setup
         let mut c0 = channel_initial_holder_commitment(&node_ctx, &cc);
         let (s0, h0) = counterparty_sign_holder_commitment(&node_ctx, &cc, &mut c0);
         validate_holder_commitment(&node_ctx, &cc, &c0, &s0, &h0).expect("initial commitment");
+        // counterparty commitment 0 (an initial commitment may not carry HTLCs)
+        node_ctx
+            .node
+            .with_channel(&cc.channel_id, |chan| {
+                chan.sign_counterparty_commitment_tx_phase2(&make_test_pubkey(0x20), 0, 0, CHANNEL_VALUE - 1000, 0, vec![], vec![])
+            })
+            .expect("counterparty commitment 0");
         // commitment 1, only prepared: validating it is the concurrent request
         let mut c1 = channel_commitment(
             &node_ctx,
@@ -204,16 +291,32 @@ fn build_world(sc: &Scenario) -> World {
         commits.push((c1, s1, h1));
         chans.push(cc);
     }
-    if sc.stub {
+    // an approved keysend for PAY_HASH: enough for one outgoing HTLC of PAY_SAT, not for two
+    node_ctx.node.add_keysend(make_test_pubkey(4), PaymentHash(PAY_HASH), PAY_SAT * 1000).expect("keysend approval");
+    let stub = if sc.stub {
         // a stub with a larger id than every ready channel
-        let _ = test_chan_ctx(&node_ctx, 200, CHANNEL_VALUE);
+        let mut cc = test_chan_ctx(&node_ctx, 200, CHANNEL_VALUE);
+        cc.setup.funding_outpoint = bitcoin::OutPoint { txid: funding_tx(200).compute_txid(), vout: 0 };
+        Some(cc)
+    } else {
+        None
+    };
+    // the funding transactions confirm: the monitors start watching the funding outpoints
+    {
+        // first an empty block with regtest difficulty (the testnet genesis bits cannot be mined here)
+        let mut tracker = node_ctx.node.get_tracker();
+        let (header, proof) = make_testnet_header(tracker.tip(), tracker.height());
+        tracker.add_block(header, proof).expect("first block");
     }
+    let coinbase_ctr = std::sync::atomic::AtomicU32::new(1);
+    let (_, r) = add_block_with(&node_ctx.node, &coinbase_ctr, (1..=sc.nchan).map(funding_tx).collect());
+    assert_eq!(r, "ok", "funding block");
     // a wallet-to-wallet transaction for check_onchain_tx
     let mut tx_ctx = TestFundingTxContext::new();
     tx_ctx.add_wallet_input(&node_ctx, SpendType::P2wpkh, 1, 1_000_000);
     tx_ctx.add_wallet_output(&node_ctx, SpendType::P2wpkh, 2, 999_000);
     let tx = tx_ctx.to_tx();
-    World { node_ctx, chans, commits, onchain: (tx, tx_ctx) }
+    World { node_ctx, chans, commits, onchain: (tx, tx_ctx), stub, blocks: std::sync::Mutex::new(Vec::new()), coinbase_ctr }
 }
 
 fn status_str<T>(r: &Result<T, lightning_signer::util::status::Status>) -> String {
@@ -275,6 +378,33 @@ fn do_req(w: &World, r: &Req) -> String {
                 }
             }
         },
+        Req::PayCp(c) => match w.chans.get(*c) {
+            None => "nochan".into(),
+            Some(cc) => {
+                let r = node.with_channel(&cc.channel_id, |chan| {
+                    let n = chan.enforcement_state.next_counterparty_commit_num;
+                    let htlc = lightning_signer::tx::tx::HTLCInfo2 {
+                        value_sat: PAY_SAT,
+                        payment_hash: PaymentHash(PAY_HASH),
+                        cltv_expiry: 150,
+                    };
+                    chan.sign_counterparty_commitment_tx_phase2(
+                        &make_test_pubkey(0x40 + n as u8),
+                        n,
+                        0,
+                        CHANNEL_VALUE - 1000 - PAY_SAT,
+                        0,
+                        vec![],
+                        vec![htlc],
+                    )
+                    .map(|(s, _)| (n, s))
+                });
+                match r {
+                    Ok((n, s)) => format!("ok {} {}", n, &hex::encode(s.serialize_compact())[..8]),
+                    Err(e) => format!("err:{:?}:{}", e.code(), e.message().chars().take(90).collect::<String>()),
+                }
+            }
+        },
         Req::Point(c) => match w.chans.get(*c) {
             None => "nochan".into(),
             Some(cc) => {
@@ -291,6 +421,10 @@ fn do_req(w: &World, r: &Req) -> String {
                 Some(cc) => cc.channel_id.clone(),
                 None => ChannelId::new(&200usize.to_le_bytes()),
             };
+            status_str(&node.forget_channel(&id))
+        }
+        Req::ForgetDb(dbid) => {
+            let id = ChannelId::new_from_peer_id_and_oid(&[2u8; 33], *dbid);
             status_str(&node.forget_channel(&id))
         }
         Req::Balance => format!("{:?}", node.channel_balance()),
@@ -335,6 +469,59 @@ fn do_req(w: &World, r: &Req) -> String {
                 Err(e) => format!("err:{:?}:{}", e.code(), e.message()),
             }
         }
+        Req::SetupChan => match &w.stub {
+            None => "nostub".into(),
+            Some(cc) => {
+                let r = node.setup_channel(
+                    cc.channel_id.clone(),
+                    None,
+                    cc.setup.clone(),
+                    &bitcoin::bip32::DerivationPath::master(),
+                );
+                match r {
+                    Ok(_) => "ok".into(),
+                    Err(e) => format!("err:{:?}:{}", e.code(), e.message()),
+                }
+            }
+        },
+        Req::SignOnchain => {
+            let (tx, c) = &w.onchain;
+            match node.unchecked_sign_onchain_tx(tx, &c.ipaths, &c.prev_outs, c.iuckeys.clone()) {
+                Ok(wit) => format!("ok {}", wit.len()),
+                Err(e) => format!("err:{:?}:{}", e.code(), e.message()),
+            }
+        }
+        Req::AddBlock(c) => match w.chans.get(*c) {
+            None => "nochan".into(),
+            Some(cc) => {
+                let spend = mk_tx(vec![cc.setup.funding_outpoint], 5000 + *c as u32);
+                let (block, r) = add_block_with(node, &w.coinbase_ctr, vec![spend]);
+                if r == "ok" {
+                    w.blocks.lock().unwrap().push(block);
+                }
+                r
+            }
+        },
+        Req::RmBlock => {
+            use lightning_signer::txoo::proof::TxoProof;
+            let block = w.blocks.lock().unwrap().pop();
+            match block {
+                None => "noblock".into(),
+                Some(block) => {
+                    let mut tracker = node.get_tracker();
+                    if tracker.headers().is_empty() {
+                        return "noprev".into();
+                    }
+                    let prev = tracker.headers()[0].clone();
+                    let h = tracker.height();
+                    let proof = TxoProof::prove_unchecked(&block, &prev.1, h);
+                    match tracker.remove_block(proof, prev) {
+                        Ok(_) => "ok".into(),
+                        Err(e) => format!("err:{:?}", e),
+                    }
+                }
+            }
+        }
         Req::Onchain => {
             let (tx, c) = &w.onchain;
             let r = node.check_onchain_tx(tx, &[], &c.prev_outs, &c.iuckeys, &c.opaths);
@@ -354,7 +541,19 @@ fn digest(w: &World) -> String {
         let st = node.get_state();
         let mut inv: Vec<String> = st.invoices.keys().map(|h| hex::encode(&h.0[..2])).collect();
         inv.sort();
-        let mut pay: Vec<String> = st.payments.keys().map(|h| hex::encode(&h.0[..2])).collect();
+        // in-flight totals per payment hash (sum over channels)
+        let mut pay: Vec<String> = st
+            .payments
+            .iter()
+            .map(|(h, p)| {
+                format!(
+                    "{}:out{}:in{}",
+                    hex::encode(&h.0[..2]),
+                    p.outgoing.values().sum::<u64>(),
+                    p.incoming.values().sum::<u64>()
+                )
+            })
+            .collect();
         pay.sort();
         s += &format!(
             "hwm={} inv={:?} pay={:?} allow={} excess={} vel={};",
@@ -371,11 +570,11 @@ fn digest(w: &World) -> String {
     for (id, slot) in slots {
         let g = slot.lock().unwrap();
         match &*g {
-            ChannelSlot::Stub(_) => s += &format!(" {}=stub;", &hex::encode(id.as_slice())[..4]),
+            ChannelSlot::Stub(_) => s += &format!(" {}/oid{}=stub;", &hex::encode(id.as_slice())[..4], id.oid()),
             ChannelSlot::Ready(c) => {
                 let es = &c.enforcement_state;
                 s += &format!(
-                    " {}=ready h{} c{} r{} closed={} forget={} bal={:?};",
+                    " {}=ready h{} c{} r{} closed={} forget={} bal={:?} chain={:?};",
                     &hex::encode(id.as_slice())[..4],
                     es.next_holder_commit_num,
                     es.next_counterparty_commit_num,
@@ -383,6 +582,7 @@ fn digest(w: &World) -> String {
                     es.channel_closed,
                     c.monitor.forget_seen(),
                     es.current_holder_commit_info.as_ref().map(|i| (i.to_broadcaster_value_sat, i.to_countersigner_value_sat)),
+                    c.monitor.as_chain_state(),
                 );
             }
         }
@@ -484,6 +684,7 @@ pub fn run_scenario(sc: &Scenario, sched: Sched, seed: u64, order: Option<Vec<us
                     .name(format!("t{}", tid))
                     .spawn(move || {
                         for (i, r) in reqs.iter().enumerate() {
+                            tap_mark(1000 + i);
                             let out = do_req(&w, r);
                             sh.lock().unwrap().replies.push((tid, i, out));
                         }
@@ -521,23 +722,47 @@ pub fn run_scenario(sc: &Scenario, sched: Sched, seed: u64, order: Option<Vec<us
     }
     if concurrent {
         let cl = classes.lock().unwrap();
-        let mut unknown: BTreeMap<usize, usize> = BTreeMap::new();
+        // mutexes created while the requests run: the slot of a channel made by new_channel, and the
+        // new slot + monitor state made by setup_channel.  Named at first sight from the request
+        // the touching thread is executing (setup_channel touches the new monitor while it holds the
+        // stub's slot, and the new slot while it holds no slot).
+        let mut unknown: BTreeMap<usize, String> = BTreeMap::new();
+        let n_threads = sc.threads.len();
+        let mut cur_req = vec![0usize; n_threads];
+        let mut holds_slot = vec![0usize; n_threads];
         for e in raw.iter() {
             let tid = thread_index(&e.thread);
-            if tid == 99 {
+            if tid >= n_threads {
                 continue; // main thread
             }
             if e.kind == LockEventKind::Mark {
-                out.trace.push(Ev { tid, k: 'f', class: String::new() });
+                if e.addr >= 1000 {
+                    cur_req[tid] = e.addr - 1000;
+                } else {
+                    out.trace.push(Ev { tid, k: 'f', class: String::new() });
+                }
                 continue;
             }
             let class = match cl.get(&e.addr) {
                 Some(c) => c.clone(),
                 None => {
                     let n = unknown.len();
-                    // the only mutexes created while requests run are the slots of channels made by
-                    // new_channel; their rank in the channel map is not known: instances from 100
-                    format!("slot {}", 100 + *unknown.entry(e.addr).or_insert(n))
+                    unknown
+                        .entry(e.addr)
+                        .or_insert_with(|| {
+                            let in_setup = matches!(sc.threads[tid].get(cur_req[tid]), Some(Req::SetupChan));
+                            let creates = sc.threads.iter().flatten().any(|q| matches!(q, Req::SetupChan | Req::NewChan(_)));
+                            if in_setup && holds_slot[tid] > 0 {
+                                format!("monitor {}", 100 + n)
+                            } else if creates {
+                                format!("slot {}", 100 + n)
+                            } else {
+                                // no request of this scenario creates a mutex: a lock the harness does
+                                // not know (the model answers bad-op: reported, never silently mapped)
+                                format!("unclassified {}", n)
+                            }
+                        })
+                        .clone()
                 }
             };
             let k = match e.kind {
@@ -546,6 +771,13 @@ pub fn run_scenario(sc: &Scenario, sched: Sched, seed: u64, order: Option<Vec<us
                 LockEventKind::Released => 'r',
                 LockEventKind::Mark => 'f',
             };
+            if class.starts_with("slot") {
+                if k == 'a' {
+                    holds_slot[tid] += 1;
+                } else if k == 'r' {
+                    holds_slot[tid] = holds_slot[tid].saturating_sub(1);
+                }
+            }
             out.trace.push(Ev { tid, k, class });
         }
     }
@@ -592,7 +824,7 @@ fn base(class: &str) -> &str {
 /// Request kinds whose rows of the generated lock table are NOT rank-increasing (the complement of
 /// `subKinds` in lean/VlsModel/Props/C20.lean; finding F11).  A deadlock in which none of the blocked
 /// requests is of such a kind contradicts `C20_partial` and gets its own violation kind.
-pub const CYCLIC_KINDS: &[&str] = &["forget_channel", "setup_channel", "get_heartbeat", "add_block", "remove_block"];
+pub const CYCLIC_KINDS: &[&str] = &["add_block", "remove_block"];
 
 pub fn describe_deadlock(sc: &Scenario, trace: &[Ev], replies: &[(usize, usize, String)]) -> (String, String) {
     let n = sc.threads.len();
@@ -652,6 +884,12 @@ pub fn describe_deadlock(sc: &Scenario, trace: &[Ev], replies: &[(usize, usize, 
         format!("deadlock-among-ordered-requests:{}", cls)
     };
     (format!("{} (requests: {})", parts.join(" "), via), kind)
+}
+
+fn pay_part(digest: &str) -> &str {
+    let a = digest.find("pay=[").unwrap_or(0);
+    let b = digest[a..].find(']').map(|k| a + k).unwrap_or(digest.len());
+    &digest[a..b]
 }
 
 /// slot acquired while a slot with a larger rank is held
@@ -820,8 +1058,23 @@ impl C20 {
             let serial = self.serial_outcomes(sc);
             let mine = (&r.replies, &r.final_state);
             if !serial.iter().any(|(rep, fin, ok)| *ok && rep == mine.0 && fin == mine.1) {
+                // a specific shape gets its own kind: a channel created by new_channel(dbid) exists at the
+                // end although the high-water mark has reached dbid (the id was handed out again after
+                // a forget_channel raised the mark)
+                let hwm: u64 = r.final_state.strip_prefix("hwm=").and_then(|t| t.split(' ').next()).and_then(|t| t.parse().ok()).unwrap_or(0);
+                let reuse = sc.threads.iter().flatten().any(|q| match q {
+                    Req::NewChan(d) => *d <= hwm && r.final_state.contains(&format!("/oid{}=stub;", d)),
+                    _ => false,
+                });
                 co.violations.push(Violation {
-                    kind: "non-serializable-outcome".into(),
+                    kind: if reuse {
+                        "id-reuse:new_channel-after-forget".into()
+                    } else if !serial.iter().any(|(_, fin, ok)| *ok && pay_part(fin) == pay_part(&r.final_state)) {
+                        // the in-flight payment totals themselves equal no sequential order
+                        "non-serializable-outcome:payments".into()
+                    } else {
+                        "non-serializable-outcome".into()
+                    },
                     desc: format!(
                         "concurrent outcome equals none of the {} sequential orders: replies {:?} final {}; first sequential: {:?}",
                         serial.len(), r.replies, r.final_state, serial.first()
@@ -900,19 +1153,25 @@ fn gen_scenario(rng: &mut Rng) -> Scenario {
         let mut v = Vec::new();
         for _ in 0..len {
             let c = rng.below(nchan as u64) as usize;
-            let r = match rng.below(20) {
-                0..=4 => Req::Validate(c),
-                5 => if rng.chance(1, 2) { Req::SignHolder(c) } else { Req::SignCp(c) },
+            let r = match rng.below(34) {
+                0..=3 => Req::Validate(c),
+                4 => Req::SignCp(c),
+                5 => Req::SignHolder(c),
                 6 => Req::Point(c),
                 7..=8 => Req::Forget(if rng.chance(1, 5) { 9 } else { c }),
-                9..=10 => Req::Balance,
-                11 => Req::Chaninfo,
-                12..=13 => Req::Heartbeat,
-                14..=15 => Req::Keysend(rng.below(3) as u8),
-                16 => Req::Invoice(rng.below(3) as u8),
-                17 => Req::Allow(rng.below(2) as u8),
-                18 => Req::NewChan(rng.range(1, 300)),
-                _ => Req::Onchain,
+                9..=11 => Req::Balance,
+                12 => Req::Chaninfo,
+                13..=14 => Req::Heartbeat,
+                15..=17 => Req::Keysend(rng.below(3) as u8),
+                18..=20 => Req::Invoice(rng.below(3) as u8),
+                21 => Req::Allow(rng.below(2) as u8),
+                22 => if rng.chance(1, 3) { Req::ForgetDb(rng.range(1, 4) * 50) } else { Req::NewChan(rng.range(1, 4) * 50) },
+                23 => Req::Onchain,
+                24 => Req::SetupChan,
+                25 => Req::SignOnchain,
+                26..=27 => Req::AddBlock(c),
+                28 => Req::RmBlock,
+                _ => Req::PayCp(c),
             };
             v.push(r);
         }
@@ -976,12 +1235,22 @@ impl Group for C20 {
             Scenario { nchan: 1, stub: false, threads: vec![vec![Req::Forget(0)], vec![Req::Validate(0)]] },
             Scenario { nchan: 2, stub: true, threads: vec![vec![Req::Forget(1)], vec![Req::Balance]] },
             Scenario { nchan: 1, stub: false, threads: vec![vec![Req::Heartbeat], vec![Req::NewChan(7)]] },
+            Scenario { nchan: 1, stub: false, threads: vec![vec![Req::AddBlock(0), Req::RmBlock], vec![Req::Validate(0)]] },
+            // invoice approval x keysend approval x balance query x commitment validation (validator_factory vs node_state)
+            Scenario { nchan: 1, stub: false, threads: vec![vec![Req::Invoice(1)], vec![Req::Keysend(1)], vec![Req::Balance]] },
+            Scenario { nchan: 1, stub: false, threads: vec![vec![Req::Invoice(2)], vec![Req::Validate(0)], vec![Req::Keysend(2)]] },
+            // two channels, one approved payment: each signing adds an outgoing HTLC for the same hash
+            Scenario { nchan: 2, stub: false, threads: vec![vec![Req::PayCp(0)], vec![Req::PayCp(1)]] },
+            Scenario { nchan: 3, stub: false, threads: vec![vec![Req::PayCp(0)], vec![Req::PayCp(1)], vec![Req::PayCp(2)]] },
+            Scenario { nchan: 1, stub: true, threads: vec![vec![Req::SetupChan], vec![Req::SignOnchain], vec![Req::Balance]] },
+            Scenario { nchan: 1, stub: false, threads: vec![vec![Req::NewChan(100), Req::ForgetDb(100)], vec![Req::NewChan(50)], vec![Req::NewChan(100)]] },
+            Scenario { nchan: 1, stub: false, threads: vec![vec![Req::NewChan(100), Req::ForgetDb(100)], vec![Req::NewChan(100), Req::NewChan(150)]] },
             Scenario { nchan: 1, stub: false, threads: vec![vec![Req::Validate(0)], vec![Req::SignCp(0)], vec![Req::SignHolder(0)]] },
             Scenario { nchan: 2, stub: false, threads: vec![vec![Req::Validate(0), Req::Keysend(1)], vec![Req::Validate(1), Req::Onchain]] },
         ];
         let mut out = Vec::new();
         for sc in &scs {
-            for seed in 1..=6u64 {
+            for seed in 1..=8u64 {
                 out.push(self.make_case(sc, if seed % 2 == 0 { Sched::Pct } else { Sched::Random }, seed * 7919));
             }
         }
